@@ -158,6 +158,37 @@ pub fn run<T: Serialize + Deserialize + WithSchema + Packed + Canon>(op: &str, t
                 format!("{} {}", full.len(), one(b))
             }
         }
+        // ty_wfaultbuf <container> <version> <validx> <kind> : like ty_wfault all, but through a small BufWriter (as
+        // save_file does): when save returns Ok, everything must have reached the sink (nothing left in the buffer).
+        // One letter per budget: K complete, e error, U = Ok returned with unflushed / missing bytes, P panic
+        "ty_wfaultbuf" => {
+            let (container, version, idx) = (toks[0], toks[1].parse::<u32>().unwrap(), toks[2].parse::<usize>().unwrap());
+            let kind = toks[3].parse::<u8>().unwrap();
+            let vals = values();
+            let x = &vals[idx];
+            let mut good = FaultyWriter::new(None, 0, usize::MAX, 0);
+            if let Err(e) = save_to(container, version, x, &mut good) {
+                return Some(format!("SAVE-ERR {}", err_class(&e)));
+            }
+            let full_len = good.out.len();
+            let s: String = (0..=full_len)
+                .map(|b| {
+                    let mut w = FaultyWriter::new(Some(b), kind, usize::MAX, 0);
+                    let (r, unflushed) = {
+                        let mut bw = std::io::BufWriter::with_capacity(64, &mut w);
+                        let r = std::panic::catch_unwind(std::panic::AssertUnwindSafe(|| save_to(container, version, x, &mut bw)));
+                        let (_, buffered) = bw.into_parts();
+                        (r, buffered.map(|v| v.len()).unwrap_or(0))
+                    };
+                    match r {
+                        Err(_) => 'P',
+                        Ok(Ok(())) => if unflushed == 0 && w.out.len() == full_len { 'K' } else { 'U' },
+                        Ok(Err(_)) => 'e',
+                    }
+                })
+                .collect();
+            format!("{} {}", full_len, s)
+        }
         // ty_wchunk <container> <version> <validx> <chunk> <interrupt_every> : short writes / interrupted calls give the same bytes
         "ty_wchunk" => {
             let (container, version, idx) = (toks[0], toks[1].parse::<u32>().unwrap(), toks[2].parse::<usize>().unwrap());
